@@ -215,6 +215,12 @@ class MutableLeg:
             part = b"".join(mc.chunks)
             if part != data[sd["off"]:sd["off"] + sd["len"]]:
                 return ("mutable:decode:tail_segment" if sd["tail"] else "mutable:decode:segment"), {"segment": s, "real_len": len(part), "spec_len": sd["len"]}
+        # the grid is reused and its key pool is finite: remove this slot so that a later file made with the same key
+        # starts from nothing
+        import shutil
+        for srv, shares in g.shares(node.get_storage_index()).items():
+            for sh, path in shares.items():
+                shutil.rmtree(os.path.dirname(path), ignore_errors=True)
         return None, None
 
 
